@@ -155,6 +155,11 @@ fn parse(text: &str) -> Parse {
                 }
             }
 
+            // Comment lines at the end of a paragraph are not followed by an entry
+            if self.current().is_none() || self.current() == Some(NEWLINE) {
+                return;
+            }
+
             self.builder.start_node(ENTRY.into());
 
             // First, parse the key and colon
